@@ -803,9 +803,12 @@ theorem sys_runFrame' (p : Prog) (hh : Hist) (s : St) (f : Frame)
     · exact typical _ [] (SysOld.refl s) rfl (fun c hc => by simpa [frameCmds] using hc) rfl (nocmd _ (by simp)) hwq
     · split
       · rename_i e ex work _
-        exact typical _ [.despawnWork work] ((sysOld_despawn1 s e).trans (SysOld.of_eq rfl)) (by simp [St.push])
-          (fun c hc => by simpa [frameCmds, allCmds, St.push] using hc) (by simp [St.push]) (nocmd _ (by simp [frameCmds]))
-          (by simp [St.push]; exact hwq)
+        split
+        · exact typical _ [.despawnWork work] ((sysOld_despawn1 s e).trans (SysOld.of_eq rfl)) (by simp [St.push])
+            (fun c hc => by simpa [frameCmds, allCmds, St.push] using hc) (by simp [St.push]) (nocmd _ (by simp [frameCmds]))
+            (by simp [St.push]; exact hwq)
+        · exact typical _ [.flush, .despawnWork _] (SysOld.of_eq rfl) rfl (fun c hc => by simpa [frameCmds, allCmds, St.push] using hc) rfl
+            (nocmd _ (by simp [frameCmds])) hwq
       · split
         · exact typical _ [.despawnWork _] (SysOld.of_eq rfl) rfl (fun c hc => by simpa [frameCmds, allCmds, St.push] using hc) rfl
             (nocmd _ (by simp [frameCmds])) hwq
